@@ -99,6 +99,35 @@ def build_file_wrapper(m, prefix, mods):
     return fw
 
 
+def build_rtok(m, prefix, depth=0):
+    """A token as the contrib renderers see it (model class RTok): attributes the methods branch on,
+    children as further stand-in tokens (a counter-model only fixes the child count and identities)."""
+    import types
+    kids = m.get(prefix + '.children')
+    n = len([k for k in (kids or []) if not (isinstance(k, str) and k.startswith('... ('))]) if isinstance(kids, list) else 0
+    tok = types.SimpleNamespace(children=[], start=m.get(prefix + '.start'), soft=bool(m.get(prefix + '.soft', False)),
+                                content=m.get(prefix + '.content', ''), footnotes={})
+    if depth < 2:
+        tok.children = [types.SimpleNamespace(children=[], start=None, soft=False, content='', footnotes={}) for _ in range(min(n, 8))]
+    if m.get(prefix + '.__has_header'):
+        tok.header = types.SimpleNamespace(children=[], start=None, soft=False, content='', footnotes={})
+    return tok
+
+
+def build_contrib_renderer(m, prefix, module, qual):
+    """A real JiraRenderer / XWiki20Renderer whose context stacks hold what the counter-model says;
+    render(child) of the stand-in children returns '' (the induction hypothesis of the contract)."""
+    owner = importlib.import_module(module)
+    cls = getattr(owner, qual.split('.')[0])
+    r = cls()
+    for f in ('listTokens', 'lastChildOfQuotes', 'firstChildOfListItems'):
+        v = m.get('%s.%s' % (prefix, f))
+        if hasattr(r, f) and isinstance(v, list):
+            setattr(r, f, [x if isinstance(x, str) and not x.startswith('... (') else None for x in v][:64])
+    r.render = lambda token: ''
+    return r
+
+
 def replay(pid, ob, repo):
     from contracts import registry
     model = registry.model()
@@ -135,6 +164,10 @@ def replay(pid, ob, repo):
                 args[pn] = pt_obj
             elif tk == 'Ref[FileWrapper]':
                 args[pn] = build_file_wrapper(cm, pre, mods)
+            elif tk in ('Ref[JiraR]', 'Ref[XWikiR]'):
+                args[pn] = build_contrib_renderer(cm, pre, module, qual)
+            elif tk == 'Ref[RTok]':
+                args[pn] = build_rtok(cm, pre)
             elif pn == 'self' and qual.endswith('.__init__') and tk.startswith('Ref['):
                 # constructor replay: a blank instance of the real class, then the real __init__
                 owner = importlib.import_module(module)
